@@ -218,6 +218,12 @@ def evaluate_concurrent(case):
                     for jf in range(len(seq[g])):
                         for e in errnos:
                             for persist in ((True,) if (tier == "quick" and e == "ENOSPC") else (False,) if tier == "quick" else (False, True)):
+                                if seq[g][jf].call in ("copy_file_range", "sendfile") and e in ("EPERM", "EOPNOTSUPP", "EXDEV", "ENOSYS"):
+                                    # "not supported for these files" is an answer to the FIRST call of a copy only (std
+                                    # asserts it, see shimlab.impossible_fault): a persisting fault would also reach the
+                                    # later calls of a copy that another worker has in progress
+                                    if persist or S.impossible_fault(seq[g], jf, e):
+                                        continue
                                 plan.append((f, jh, g, jf, e, persist))
             if case.get("only"):
                 plan = [tuple(case["only"])]
